@@ -38,7 +38,7 @@ from mc.ref import ndn_strict as ns
 from mc.vloop import tb_where
 
 PROPERTY = 'C15'
-IDN = {'a': '/ida', 'b': '/idb/sub'}
+IDN = {'a': '/ida', 'b': '/ida/KEY/fixed-id'}      # (the second identity is named like a key of the first: names with a KEY component inside)
 SHM = '/dev/shm' if os.path.isdir('/dev/shm') else None
 
 
